@@ -27,11 +27,36 @@ fn pop_strategy(c12: bool) -> BoxedStrategy<POp> {
     let nt = crate::types::ntypes() as u8;
     let size = prop_oneof![4 => 1u16..=24, 4 => 24u16..=72, 1 => 72u16..=200, 1 => Just(0u16)];
     let mut v: Vec<(u32, BoxedStrategy<POp>)> = vec![
-        (28, (size.clone(), 0u8..4).prop_map(|(n, payload)| POp::AllocBytes { n, payload }).boxed()),
-        (16, (1u8..=8, -9i8..=9, 0u8..4).prop_map(|(num, d, payload)| POp::AllocRel { num, d, payload }).boxed()),
-        (6, (any::<u8>(), -4i8..=0, 0u8..4).prop_map(|(ix, d, payload)| POp::AllocSeg { ix, d, payload }).boxed()),
-        (18, (0..nt, 0u8..4).prop_map(|(ty, payload)| POp::AllocTyped { ty, payload }).boxed()),
-        (10, (0..nt, 0u16..40, 0u8..4).prop_map(|(ty, n, payload)| POp::AllocAligned { ty, n, payload }).boxed()),
+        (
+            28,
+            (size.clone(), 0u8..4)
+                .prop_map(|(n, payload)| POp::AllocBytes { n, payload })
+                .boxed(),
+        ),
+        (
+            16,
+            (1u8..=8, -9i8..=9, 0u8..4)
+                .prop_map(|(num, d, payload)| POp::AllocRel { num, d, payload })
+                .boxed(),
+        ),
+        (
+            6,
+            (any::<u8>(), -4i8..=0, 0u8..4)
+                .prop_map(|(ix, d, payload)| POp::AllocSeg { ix, d, payload })
+                .boxed(),
+        ),
+        (
+            18,
+            (0..nt, 0u8..4)
+                .prop_map(|(ty, payload)| POp::AllocTyped { ty, payload })
+                .boxed(),
+        ),
+        (
+            10,
+            (0..nt, 0u16..40, 0u8..4)
+                .prop_map(|(ty, n, payload)| POp::AllocAligned { ty, n, payload })
+                .boxed(),
+        ),
         (34, any::<u16>().prop_map(|h| POp::Drop { h }).boxed()),
         (3, Just(POp::Discard).boxed()),
     ];
@@ -39,7 +64,12 @@ fn pop_strategy(c12: bool) -> BoxedStrategy<POp> {
         v.push((22, size.prop_map(|n| POp::AllocOwned { n }).boxed()));
         v.push((6, Just(POp::CloneArena).boxed()));
         v.push((6, Just(POp::DropClone).boxed()));
-        v.push((18, (any::<u16>(), 0u8..4).prop_map(|(h, to)| POp::Send { h, to }).boxed()));
+        v.push((
+            18,
+            (any::<u16>(), 0u8..4)
+                .prop_map(|(h, to)| POp::Send { h, to })
+                .boxed(),
+        ));
         v.push((10, Just(POp::Recv).boxed()));
     }
     proptest::strategy::Union::new_weighted(v).boxed()
@@ -68,34 +98,81 @@ fn schedule_strategy(maxlen: usize) -> BoxedStrategy<Vec<u8>> {
     .boxed()
 }
 
-pub fn case_b_strategy(tier: Tier, freelists: &'static [(u32, u8)], c12: bool) -> BoxedStrategy<CaseB> {
+pub fn case_b_strategy(
+    tier: Tier,
+    freelists: &'static [(u32, u8)],
+    c12: bool,
+) -> BoxedStrategy<CaseB> {
     // the happens-before check gets the larger share of nested removal windows: orderings on the restore paths only
     // matter when two failed unlinks overlap
     let nested_w: u32 = if c12 { 8 } else { 1 };
-    let (maxops, maxthreads, schedlen) = if tier == Tier::Thorough { (10usize, 4usize, 160usize) } else { (6, 3, 64) };
-    let extra_pre = prop::collection::vec(prop_oneof![3 => any::<u16>().prop_map(|h| Op::Drop { h }), 1 => (1u32..60).prop_map(|n| Op::AllocBytes { n: crate::case::Size::Abs(n), owned: false, via: 0 })], 0..=3);
-    let spurious = if tier == Tier::Thorough { any::<bool>().boxed() } else { Just(false).boxed() };
+    let (maxops, maxthreads, schedlen) = if tier == Tier::Thorough {
+        (10usize, 4usize, 160usize)
+    } else {
+        (6, 3, 64)
+    };
+    let extra_pre = prop::collection::vec(
+        prop_oneof![3 => any::<u16>().prop_map(|h| Op::Drop { h }), 1 => (1u32..60).prop_map(|n| Op::AllocBytes { n: crate::case::Size::Abs(n), owned: false, via: 0 })],
+        0..=3,
+    );
+    let spurious = if tier == Tier::Thorough {
+        any::<bool>().boxed()
+    } else {
+        Just(false).boxed()
+    };
     // ABA provokers: one thread pops a segment, splits it, takes the remainder and frees the first part again
     // (the same offset comes back with a different size) while a victim is inside its own pop
-    let popper = ((2u8..=5, -9i8..=9), (5u8..=8, -9i8..=0), prop::collection::vec(pop_strategy(c12), 0..=2)).prop_map(|((n1, d1), (n2, d2), rest)| {
-        let mut v = vec![POp::AllocRel { num: n1, d: d1, payload: 0 }, POp::AllocRel { num: n2, d: d2, payload: 0 }, POp::Drop { h: 0 }];
-        v.extend(rest);
-        v
-    });
-    let victim = ((5u8..=8, -9i8..=9), prop::collection::vec(pop_strategy(c12), 0..=2)).prop_map(|((n, d), rest)| {
-        let mut v = vec![POp::AllocRel { num: n, d, payload: 0 }];
-        v.extend(rest);
-        v
-    });
-    let templ = (popper, victim, prop::collection::vec(pop_strategy(c12), 1..=maxops), 0u8..6, any::<bool>()).prop_map(|(p, v, other, perm, three)| {
-        let mut t = vec![v, p];
-        if three {
-            t.push(other);
-        }
-        let k = perm as usize % t.len();
-        t.rotate_left(k);
-        t
-    });
+    let popper = (
+        (2u8..=5, -9i8..=9),
+        (5u8..=8, -9i8..=0),
+        prop::collection::vec(pop_strategy(c12), 0..=2),
+    )
+        .prop_map(|((n1, d1), (n2, d2), rest)| {
+            let mut v = vec![
+                POp::AllocRel {
+                    num: n1,
+                    d: d1,
+                    payload: 0,
+                },
+                POp::AllocRel {
+                    num: n2,
+                    d: d2,
+                    payload: 0,
+                },
+                POp::Drop { h: 0 },
+            ];
+            v.extend(rest);
+            v
+        });
+    let victim = (
+        (5u8..=8, -9i8..=9),
+        prop::collection::vec(pop_strategy(c12), 0..=2),
+    )
+        .prop_map(|((n, d), rest)| {
+            let mut v = vec![POp::AllocRel {
+                num: n,
+                d,
+                payload: 0,
+            }];
+            v.extend(rest);
+            v
+        });
+    let templ = (
+        popper,
+        victim,
+        prop::collection::vec(pop_strategy(c12), 1..=maxops),
+        0u8..6,
+        any::<bool>(),
+    )
+        .prop_map(|(p, v, other, perm, three)| {
+            let mut t = vec![v, p];
+            if three {
+                t.push(other);
+            }
+            let k = perm as usize % t.len();
+            t.rotate_left(k);
+            t
+        });
     // nested removal windows: thread 0 takes the last (largest, in a Pessimistic list) segment, writes it and frees it
     // again under the scheduler; 2..4 further threads each ask for the size of a segment at a generated list position,
     // so that - with the mark pre-emption on - several threads sit between their mark and their unlink on
@@ -103,31 +180,68 @@ pub fn case_b_strategy(tier: Tier, freelists: &'static [(u32, u8)], c12: bool) -
     // list positions: the head and the tail are where removal windows nest (a thread that keeps taking the head drains
     // the list in front of a marked node; the tail is the segment thread 0 has just written and freed)
     let seg = |hi: bool| {
-        let ix = if hi { (200u8..=255).boxed() } else { prop_oneof![2 => Just(0u8), 1 => 200u8..=255, 3 => 0u8..=255].boxed() };
-        (ix, prop_oneof![3 => Just(0i8), 2 => -4i8..=0, 1 => -9i8..=9], 0u8..4).prop_map(|(ix, d, payload)| POp::AllocSeg { ix, d, payload })
+        let ix = if hi {
+            (200u8..=255).boxed()
+        } else {
+            prop_oneof![2 => Just(0u8), 1 => 200u8..=255, 3 => 0u8..=255].boxed()
+        };
+        (
+            ix,
+            prop_oneof![3 => Just(0i8), 2 => -4i8..=0, 1 => -9i8..=9],
+            0u8..4,
+        )
+            .prop_map(|(ix, d, payload)| POp::AllocSeg { ix, d, payload })
     };
-    let follower = (seg(false), prop::collection::vec(prop_oneof![3 => seg(false), 1 => pop_strategy(c12)], 0..=3)).prop_map(|(first, rest)| {
-        let mut v = vec![first];
-        v.extend(rest);
-        v
-    });
-    let nested = (seg(true), prop::collection::vec(follower, 2..=4), prop::collection::vec(pop_strategy(c12), 0..=1)).prop_map(|(first, others, tail)| {
-        let mut t0 = vec![first, POp::Drop { h: 0 }];
-        t0.extend(tail);
-        let mut t = vec![t0];
-        t.extend(others);
-        t
-    });
+    let follower = (
+        seg(false),
+        prop::collection::vec(prop_oneof![3 => seg(false), 1 => pop_strategy(c12)], 0..=3),
+    )
+        .prop_map(|(first, rest)| {
+            let mut v = vec![first];
+            v.extend(rest);
+            v
+        });
+    let nested = (
+        seg(true),
+        prop::collection::vec(follower, 2..=4),
+        prop::collection::vec(pop_strategy(c12), 0..=1),
+    )
+        .prop_map(|(first, others, tail)| {
+            let mut t0 = vec![first, POp::Drop { h: 0 }];
+            t0.extend(tail);
+            let mut t = vec![t0];
+            t.extend(others);
+            t
+        });
     let progs = prop_oneof![
         8 => prop::collection::vec(prop::collection::vec(pop_strategy(c12), 1..=maxops), 2..=maxthreads),
         3 => templ,
         nested_w => nested,
     ];
-    (cfg_b(freelists), prelude_strategy(), extra_pre, progs, schedule_strategy(schedlen), prop_oneof![2 => Just(0u8), 3 => 1u8..=40], spurious, any::<bool>())
-        .prop_map(|(cfg, mut pre, extra, progs, schedule, mark_preempt, spurious, park_all)| {
-            pre.extend(extra);
-            CaseB { cfg, pre, progs, schedule, mark_preempt, spurious, park_all: park_all && mark_preempt > 0 }
-        })
+    (
+        cfg_b(freelists),
+        prelude_strategy(),
+        extra_pre,
+        progs,
+        schedule_strategy(schedlen),
+        prop_oneof![2 => Just(0u8), 3 => 1u8..=40],
+        spurious,
+        any::<bool>(),
+    )
+        .prop_map(
+            |(cfg, mut pre, extra, progs, schedule, mark_preempt, spurious, park_all)| {
+                pre.extend(extra);
+                CaseB {
+                    cfg,
+                    pre,
+                    progs,
+                    schedule,
+                    mark_preempt,
+                    spurious,
+                    park_all: park_all && mark_preempt > 0,
+                }
+            },
+        )
         .boxed()
 }
 
@@ -170,7 +284,13 @@ macro_rules! engb_prop {
                 case_b_strategy(tier, $fl, $c12)
             }
             fn run(case: &CaseB) -> CaseReport {
-                let r = run_case_b(case, &OptsB { detect_races: $races, owner: $id });
+                let r = run_case_b(
+                    case,
+                    &OptsB {
+                        detect_races: $races,
+                        owner: $id,
+                    },
+                );
                 let mut classes: BTreeSet<&'static str> = r.classes.clone();
                 if r.cas_failures > 0 {
                     classes.insert("cas-failure");
@@ -187,7 +307,11 @@ macro_rules! engb_prop {
                 crate::runner::bump("scheduled_steps", r.steps);
                 crate::runner::bump("context_switches", r.switches);
                 let f: fn(&crate::engb::RunB) -> bool = $nt;
-                CaseReport { nontrivial: f(&r) && !r.inconclusive, classes, viol: r.viol }
+                CaseReport {
+                    nontrivial: f(&r) && !r.inconclusive,
+                    classes,
+                    viol: r.viol,
+                }
             }
             fn cases(tier: Tier) -> u64 {
                 scale(tier, $q, $t)
@@ -232,14 +356,32 @@ fn owned_vs_borrowed(c: &CaseA, classes: &mut BTreeSet<&'static str>) -> Option<
         c.ops
             .iter()
             .map(|op| match op {
-                Op::AllocBytes { n, via, .. } => Op::AllocBytes { n: n.clone(), owned, via: *via },
-                Op::AllocAligned { ty, n, via, .. } => Op::AllocAligned { ty: *ty, n: n.clone(), owned, via: *via },
-                Op::AllocTyped { ty, via, .. } => Op::AllocTyped { ty: *ty, owned, via: *via },
+                Op::AllocBytes { n, via, .. } => Op::AllocBytes {
+                    n: n.clone(),
+                    owned,
+                    via: *via,
+                },
+                Op::AllocAligned { ty, n, via, .. } => Op::AllocAligned {
+                    ty: *ty,
+                    n: n.clone(),
+                    owned,
+                    via: *via,
+                },
+                Op::AllocTyped { ty, via, .. } => Op::AllocTyped {
+                    ty: *ty,
+                    owned,
+                    via: *via,
+                },
                 o => o.clone(),
             })
             .collect()
     };
-    if !c.ops.iter().any(|op| matches!(op, Op::AllocBytes { .. } | Op::AllocAligned { .. } | Op::AllocTyped { .. })) {
+    if !c.ops.iter().any(|op| {
+        matches!(
+            op,
+            Op::AllocBytes { .. } | Op::AllocAligned { .. } | Op::AllocTyped { .. }
+        )
+    }) {
         return None;
     }
     // truncate is only legal (and only applied by the interpreter) while refs() == 1; owned handles embed arena
@@ -247,10 +389,26 @@ fn owned_vs_borrowed(c: &CaseA, classes: &mut BTreeSet<&'static str>) -> Option<
     if c.ops.iter().any(|op| matches!(op, Op::Truncate { .. })) {
         return None;
     }
-    let mode = crate::enga::Mode { trace: true, drop_zero_now: true, ..crate::enga::Mode::default() };
+    let mode = crate::enga::Mode {
+        trace: true,
+        drop_zero_now: true,
+        ..crate::enga::Mode::default()
+    };
     crate::enga::set_owner(Some("C13"));
-    let a = crate::enga::run_case(&CaseA { cfg: c.cfg.clone(), ops: with(false) }, mode.clone());
-    let b = crate::enga::run_case(&CaseA { cfg: c.cfg.clone(), ops: with(true) }, mode);
+    let a = crate::enga::run_case(
+        &CaseA {
+            cfg: c.cfg.clone(),
+            ops: with(false),
+        },
+        mode.clone(),
+    );
+    let b = crate::enga::run_case(
+        &CaseA {
+            cfg: c.cfg.clone(),
+            ops: with(true),
+        },
+        mode,
+    );
     crate::enga::set_owner(None);
     if a.viol.is_some() || b.viol.is_some() || a.foreign.is_some() || b.foreign.is_some() {
         // a predicate failed in a variant: report it as it is (the owner filter decides whose it is)
@@ -258,15 +416,29 @@ fn owned_vs_borrowed(c: &CaseA, classes: &mut BTreeSet<&'static str>) -> Option<
     }
     classes.insert("owned-vs-borrowed-compared");
     if a.trace.len() != b.trace.len() {
-        return Some(crate::enga::viol!("C13", "owned-vs-borrowed-length", "borrowed variant made {} steps, owned variant {}", a.trace.len(), b.trace.len()));
+        return Some(crate::enga::viol!(
+            "C13",
+            "owned-vs-borrowed-length",
+            "borrowed variant made {} steps, owned variant {}",
+            a.trace.len(),
+            b.trace.len()
+        ));
     }
     for (x, y) in a.trace.iter().zip(b.trace.iter()) {
-        if matches!(c.ops.get(x.op), Some(Op::CloneArena) | Some(Op::DropArena { .. })) {
+        if matches!(
+            c.ops.get(x.op),
+            Some(Op::CloneArena) | Some(Op::DropArena { .. })
+        ) {
             continue;
         }
         // the result string of a non-allocating step is harness bookkeeping (which handle object a Drop
         // index lands on); the state after the step is what is compared
-        let is_alloc = matches!(c.ops.get(x.op), Some(Op::AllocBytes { .. }) | Some(Op::AllocAligned { .. }) | Some(Op::AllocTyped { .. }));
+        let is_alloc = matches!(
+            c.ops.get(x.op),
+            Some(Op::AllocBytes { .. })
+                | Some(Op::AllocAligned { .. })
+                | Some(Op::AllocTyped { .. })
+        );
         let same = (!is_alloc || x.res == y.res)
             && x.range == y.range
             && x.snap.allocated == y.snap.allocated
@@ -276,7 +448,15 @@ fn owned_vs_borrowed(c: &CaseA, classes: &mut BTreeSet<&'static str>) -> Option<
             && x.snap.minseg == y.snap.minseg
             && x.snap.fl == y.snap.fl;
         if !same {
-            return Some(crate::enga::viol!("C13", "owned-vs-borrowed-differs", "op #{} {:?}: all-borrowed history observes {:?}, all-owned history observes {:?}", x.op, c.ops.get(x.op), x, y));
+            return Some(crate::enga::viol!(
+                "C13",
+                "owned-vs-borrowed-differs",
+                "op #{} {:?}: all-borrowed history observes {:?}, all-owned history observes {:?}",
+                x.op,
+                c.ops.get(x.op),
+                x,
+                y
+            ));
         }
     }
     None
@@ -313,12 +493,25 @@ impl Prop for C13 {
                 r
             }
             CaseC13::B(c) => {
-                let r = run_case_b(c, &OptsB { detect_races: false, owner: "C13" });
+                let r = run_case_b(
+                    c,
+                    &OptsB {
+                        detect_races: false,
+                        owner: "C13",
+                    },
+                );
                 let mut classes: BTreeSet<&'static str> = r.classes.clone();
                 classes.insert("threaded-case");
                 crate::runner::bump("scheduled_steps", r.steps);
-                let nontrivial = !r.inconclusive && classes.contains("unmounted-by-a-scheduled-thread") && (classes.contains("thread-cloned-arena") || classes.contains("owned-buffer-sent"));
-                CaseReport { nontrivial, classes, viol: r.viol }
+                let nontrivial = !r.inconclusive
+                    && classes.contains("unmounted-by-a-scheduled-thread")
+                    && (classes.contains("thread-cloned-arena")
+                        || classes.contains("owned-buffer-sent"));
+                CaseReport {
+                    nontrivial,
+                    classes,
+                    viol: r.viol,
+                }
             }
         }
     }
@@ -367,11 +560,21 @@ impl Prop for C08 {
         match case {
             CaseC08::A(c) => <C08A as Prop>::run(c),
             CaseC08::B(c) => {
-                let r = run_case_b(c, &OptsB { detect_races: false, owner: "C08" });
+                let r = run_case_b(
+                    c,
+                    &OptsB {
+                        detect_races: false,
+                        owner: "C08",
+                    },
+                );
                 let mut classes: BTreeSet<&'static str> = r.classes.clone();
                 classes.insert("threaded-case");
                 crate::runner::bump("scheduled_steps", r.steps);
-                CaseReport { nontrivial: !r.inconclusive && r.owner_changes >= 1, classes, viol: r.viol }
+                CaseReport {
+                    nontrivial: !r.inconclusive && r.owner_changes >= 1,
+                    classes,
+                    viol: r.viol,
+                }
             }
         }
     }
@@ -416,11 +619,36 @@ fn case_b_c04(tier: Tier) -> BoxedStrategy<CaseB> {
         2 => (0..nt, 0u8..2).prop_map(|(ty, payload)| POp::AllocTyped { ty, payload }),
         2 => any::<u16>().prop_map(|h| POp::Drop { h }),
     ];
-    let (maxops, maxthreads, schedlen) = if tier == Tier::Thorough { (8usize, 4usize, 120usize) } else { (5, 3, 48) };
+    let (maxops, maxthreads, schedlen) = if tier == Tier::Thorough {
+        (8usize, 4usize, 120usize)
+    } else {
+        (5, 3, 48)
+    };
     let progs = prop::collection::vec(prop::collection::vec(pop, 1..=maxops), 2..=maxthreads);
-    let pre = prop::collection::vec((1u32..40).prop_map(|n| Op::AllocBytes { n: crate::case::Size::Abs(n), owned: false, via: 0 }), 1..=3);
-    (cfg_b(ALL_FL), pre, progs, schedule_strategy(schedlen), any::<bool>())
-        .prop_map(move |(cfg, pre, progs, schedule, spurious)| CaseB { cfg, pre, progs, schedule, mark_preempt: 0, spurious: spurious && tier == Tier::Thorough, park_all: false })
+    let pre = prop::collection::vec(
+        (1u32..40).prop_map(|n| Op::AllocBytes {
+            n: crate::case::Size::Abs(n),
+            owned: false,
+            via: 0,
+        }),
+        1..=3,
+    );
+    (
+        cfg_b(ALL_FL),
+        pre,
+        progs,
+        schedule_strategy(schedlen),
+        any::<bool>(),
+    )
+        .prop_map(move |(cfg, pre, progs, schedule, spurious)| CaseB {
+            cfg,
+            pre,
+            progs,
+            schedule,
+            mark_preempt: 0,
+            spurious: spurious && tier == Tier::Thorough,
+            park_all: false,
+        })
         .boxed()
 }
 
@@ -442,12 +670,23 @@ impl Prop for C04 {
         match case {
             CaseC04::A(c) => <C04A as Prop>::run(c),
             CaseC04::B(c) => {
-                let r = run_case_b(c, &OptsB { detect_races: false, owner: "C04" });
+                let r = run_case_b(
+                    c,
+                    &OptsB {
+                        detect_races: false,
+                        owner: "C04",
+                    },
+                );
                 let mut classes: BTreeSet<&'static str> = r.classes.clone();
                 classes.insert("threaded-case");
                 crate::runner::bump("scheduled_steps", r.steps);
-                let nontrivial = !r.inconclusive && classes.contains("alloc-failed") && r.cas_failures >= 1;
-                CaseReport { nontrivial, classes, viol: r.viol }
+                let nontrivial =
+                    !r.inconclusive && classes.contains("alloc-failed") && r.cas_failures >= 1;
+                CaseReport {
+                    nontrivial,
+                    classes,
+                    viol: r.viol,
+                }
             }
         }
     }
@@ -492,12 +731,37 @@ fn case_b_c03(tier: Tier) -> BoxedStrategy<CaseB> {
         4 => (1u16..=17, 0u8..2).prop_map(|(n, payload)| POp::AllocBytes { n, payload }),
         2 => any::<u16>().prop_map(|h| POp::Drop { h }),
     ];
-    let (maxops, maxthreads, schedlen) = if tier == Tier::Thorough { (8usize, 4usize, 120usize) } else { (5, 3, 48) };
+    let (maxops, maxthreads, schedlen) = if tier == Tier::Thorough {
+        (8usize, 4usize, 120usize)
+    } else {
+        (5, 3, 48)
+    };
     let progs = prop::collection::vec(prop::collection::vec(pop, 1..=maxops), 2..=maxthreads);
     // a few small allocations first so that the cursor starts at an arbitrary residue
-    let pre = prop::collection::vec((1u32..24).prop_map(|n| Op::AllocBytes { n: crate::case::Size::Abs(n), owned: false, via: 0 }), 0..=2);
-    (cfg_b(ALL_FL), pre, progs, schedule_strategy(schedlen), any::<bool>())
-        .prop_map(move |(cfg, pre, progs, schedule, spurious)| CaseB { cfg, pre, progs, schedule, mark_preempt: 0, spurious: spurious && tier == Tier::Thorough, park_all: false })
+    let pre = prop::collection::vec(
+        (1u32..24).prop_map(|n| Op::AllocBytes {
+            n: crate::case::Size::Abs(n),
+            owned: false,
+            via: 0,
+        }),
+        0..=2,
+    );
+    (
+        cfg_b(ALL_FL),
+        pre,
+        progs,
+        schedule_strategy(schedlen),
+        any::<bool>(),
+    )
+        .prop_map(move |(cfg, pre, progs, schedule, spurious)| CaseB {
+            cfg,
+            pre,
+            progs,
+            schedule,
+            mark_preempt: 0,
+            spurious: spurious && tier == Tier::Thorough,
+            park_all: false,
+        })
         .boxed()
 }
 
@@ -518,14 +782,24 @@ impl Prop for C03 {
         match case {
             CaseC03::A(c) => <C03A as Prop>::run(c),
             CaseC03::B(c) => {
-                let r = run_case_b(c, &OptsB { detect_races: false, owner: "C03" });
+                let r = run_case_b(
+                    c,
+                    &OptsB {
+                        detect_races: false,
+                        owner: "C03",
+                    },
+                );
                 let mut classes: BTreeSet<&'static str> = r.classes.clone();
                 classes.insert("threaded-case");
                 if r.cas_failures > 0 {
                     classes.insert("cas-failure");
                 }
                 crate::runner::bump("scheduled_steps", r.steps);
-                CaseReport { nontrivial: !r.inconclusive && r.cas_failures >= 1, classes, viol: r.viol }
+                CaseReport {
+                    nontrivial: !r.inconclusive && r.cas_failures >= 1,
+                    classes,
+                    viol: r.viol,
+                }
             }
         }
     }
